@@ -130,6 +130,17 @@ func (h *hStore) pendingItems() []WriteBufItem[int, int] {
 	return items
 }
 
+// removalBegun: the policy has already taken the resident entry of k out (eviction or expiry under way: the
+// removed mark is set before the shard lock is taken to delete the map slot). Quiet mode only.
+func (h *hStore) removalBegun(k int) bool {
+	for _, sh := range h.s.shards {
+		if e, ok := sh.hashmap[k]; ok {
+			return e.flag.IsRemoved()
+		}
+	}
+	return false
+}
+
 // itemProcessed tells from the entry's policy-side state whether sinkWrite has handled the
 // item (entry pool off: entries start with zero flags and no list links).
 func itemProcessed(it WriteBufItem[int, int]) bool {
@@ -156,6 +167,7 @@ func matches(it WriteBufItem[int, int], w *c20Write) bool {
 func (r *c20Run) atWaitReturn(ci, called int) {
 	queued := r.h.pendingItems()
 	batch := r.h.s.writeBuffer
+	res, pol := r.h.resident(), r.h.policyPairs()
 	var seen []string
 	for _, w := range r.writes {
 		if w.ret == 0 || w.ret >= called {
@@ -173,6 +185,17 @@ func (r *c20Run) atWaitReturn(ci, called int) {
 				applied, why = false, "its event was dequeued but not yet applied"
 			}
 		}
+		// positive evidence, so that an event that was dropped (neither queued nor in the batch) is not
+		// mistaken for an applied one: a stored value the map still holds must be tracked by the policy,
+		// and the victim of a Delete must have been reported
+		if applied && w.kind == "set" {
+			if v, ok := res[w.k]; ok && v == w.v && pol[[2]int{w.k, w.v}] == "" && !r.h.removalBegun(w.k) {
+				applied, why = false, "its event is gone (not queued, not in the batch) and the policy does not track the entry the map holds"
+			}
+		}
+		if applied && w.kind == "del" && w.v != 0 && r.h.notified(w.k, w.v) == 0 {
+			applied, why = false, "its event is gone (not queued, not in the batch) and no notification for the removed value was delivered"
+		}
 		seen = append(seen, fmt.Sprintf("%s%d:%v", w.kind, w.k, applied))
 		if !applied {
 			r.bad = append(r.bad, fmt.Sprintf("client%d: Wait returned but %s(%d) by client%d, which had returned before the Wait was called, is not applied: %s", ci, w.kind, w.k, w.client, why))
@@ -189,6 +212,26 @@ func (r *c20Run) atWaitReturn(ci, called int) {
 // atEnd: a notification for a Delete that completed before a Wait was called must already
 // have been in the listener log when that Wait returned (the log is append-only).
 func (r *c20Run) atEnd() {
+	all := true
+	for _, d := range r.done {
+		all = all && d
+	}
+	if all {
+		// every script ends with a Wait, so at the end every write precedes a completed Wait of its own client:
+		// the map and the policy must describe the same entries
+		res, pol := r.h.resident(), r.h.policyPairs()
+		for k, v := range res {
+			if pol[[2]int{k, v}] == "" && !r.h.removalBegun(k) {
+				r.bad = append(r.bad, fmt.Sprintf("at the end (every client's final Wait has returned) the map holds %d=%d but the policy does not track it", k, v))
+			}
+		}
+		for kv := range pol {
+			if v, ok := res[kv[0]]; !ok || v != kv[1] {
+				r.bad = append(r.bad, fmt.Sprintf("at the end (every client's final Wait has returned) the policy still tracks %d=%d, which the map no longer holds", kv[0], kv[1]))
+			}
+		}
+		sort.Strings(r.bad)
+	}
 	for _, wt := range r.waits {
 		for _, w := range r.writes {
 			if w.kind != "del" || w.ret == 0 || w.ret >= wt.called {
